@@ -5,10 +5,12 @@
   the stream as a byte list (Model/C08.lean); the statements below hold for every byte list /
   every field / every payload, with no bound on sizes.
 
-  Two clauses of the property are false of the unchanged code (DESIGN.md §6, F4 and F5).  For each
-  the full-strength statement is kept as a `def … : Prop`, next to a `_partial` theorem under the
-  hypothesis that excludes the defect class and a kernel-checked `_witness` that the hypothesis is
-  needed.
+  Two clauses of the property were false of the code before the repairs of F5 (optimistic read of a
+  `TCP6` line) and F4 (nil address for an accepted header without addresses), DESIGN.md §6.  They
+  are now proved at full strength (`c08_v1_exact`, `c08_addr_total`,
+  `c08_headerless_addresses_use_socket`); the former witnesses are kept as `example`s of the
+  repaired behaviour, and `c08_checker_flags_old_defects` shows that the checker applied to the
+  implementation still refuses the old behaviour.
 -/
 import FwdVerif.Lemmas.C08Conn
 import FwdVerif.Lemmas.C08Family
@@ -52,74 +54,43 @@ theorem c08_no_header_leak (bs rest : Bytes) (h : Header) (hr : readHeader bs = 
 
 /-! ### (c) v1: addresses as advertised, payload exact -/
 
-/-- Full-strength statement: every well-formed v1 TCP line followed by any payload is read as the
-    advertised addresses and exactly the payload.  **False of the unchanged code (F5).** -/
-def c08_v1_exact_full_statement : Prop :=
-  ∀ (l : V1Line) (a d : Bytes) (sp dp : Int) (p : Bytes),
-    WFv1 l a d sp dp → readHeader (l.bytes ++ p) = .ok (v1Hdr a d sp dp, p)
-
-/-- …holds when a `TCP6` line is at least 24 bytes long (the optimistic read does not overshoot). -/
-theorem c08_v1_exact_partial (l : V1Line) (a d : Bytes) (sp dp : Int) (p : Bytes)
-    (hwf : WFv1 l a d sp dp) (h24 : l.kind = .tcp6 → 24 ≤ l.bytes.length) :
+/-- Every well-formed v1 TCP line (`WFv1`: both address fields accepted by `net.ParseIP`, both port
+    fields by `strconv.Atoi`, at most 107 bytes with its CRLF, dotted quads for `TCP4`) followed by
+    any payload is read as the advertised addresses and exactly the payload.  No lower bound on the
+    length is needed: a `TCP4` line is at least 32 bytes, a `TCP6` line at least 22
+    (`PROXY TCP6 :: :: 1 2\r\n`), which is what the optimistic reads take. -/
+theorem c08_v1_exact (l : V1Line) (a d : Bytes) (sp dp : Int) (p : Bytes)
+    (hwf : WFv1 l a d sp dp) :
     readHeader (l.bytes ++ p) = .ok (v1Hdr a d sp dp, p) := by
   obtain ⟨h1, h2, h3, h4, hmax, hv4⟩ := hwf
   rw [readHeader_eq]
-  apply readHeaderS_v1_line l h1 h2 h3 h4 hmax
-  cases hk : l.kind with
-  | tcp6 => exact h24 hk
-  | tcp4 =>
-    obtain ⟨v1, v2⟩ := hv4 hk
-    have := parseIP_v4_length v1 h1
-    have := parseIP_v4_length v2 h2
-    have := atoi_length h3
-    have := atoi_length h4
-    have hl : l.bytes.length = 11 + l.tail.length + 2 := by
-      simp [V1Line.bytes, body_length, crlf]
-    have ht : l.tail.length = l.src.length + 1 + (l.dst.length + 1 + (l.sport.length + 1 + l.dport.length)) := by
-      simp [V1Line.tail]; omega
-    show 32 ≤ l.bytes.length
-    omega
+  exact readHeaderS_v1_line l h1 h2 h3 h4 hmax (v1_line_min l h1 h2 h3 h4 hv4) p
 
-/-- a `TCP4` line needs no side condition: a dotted quad is at least 7 bytes, so the line is at
-    least 32 -/
-theorem c08_v1_tcp4_exact (l : V1Line) (a d : Bytes) (sp dp : Int) (p : Bytes)
-    (hwf : WFv1 l a d sp dp) (hk : l.kind = .tcp4) :
-    readHeader (l.bytes ++ p) = .ok (v1Hdr a d sp dp, p) :=
-  c08_v1_exact_partial l a d sp dp p hwf (fun h => by rw [hk] at h; cases h)
-
-/-- `PROXY TCP6 :: :: 1 2\r\n` (22 bytes), payload `hello\r\n` -/
+/-- `PROXY TCP6 :: :: 1 2\r\n` (22 bytes), the shortest `TCP6` line (the former F5 witness) -/
 def f5Line : V1Line := ⟨.tcp6, [58, 58], [58, 58], [49], [50]⟩
 
 set_option maxRecDepth 100000 in
-theorem c08_f5_line_wellformed : WFv1 f5Line (List.replicate 16 0) (List.replicate 16 0) 1 2 := by
-  refine ⟨by decide, by decide, by decide, by decide, by decide, ?_⟩
-  intro h; cases h
+/-- the 22-byte line followed by `hello\r\n`: accepted, nothing of the payload swallowed -/
+example : readHeader (f5Line.bytes ++ [104, 101, 108, 108, 111, 13, 10]) =
+    .ok (v1Hdr (List.replicate 16 0) (List.replicate 16 0) 1 2, [104, 101, 108, 108, 111, 13, 10]) :=
+  c08_v1_exact f5Line _ _ 1 2 _ ⟨by decide, by decide, by decide, by decide, by decide, fun h => by cases h⟩
 
 set_option maxRecDepth 100000 in
-/-- F5, kernel-checked: the 22-byte line is well-formed, yet the reader swallows two payload bytes
-    into the line and refuses the connection. -/
-theorem c08_v1_exact_witness : ¬ c08_v1_exact_full_statement := by
-  intro hfull
-  have h := hfull f5Line _ _ 1 2 [104, 101, 108, 108, 111, 13, 10] c08_f5_line_wellformed
-  have h' : readHeader (f5Line.bytes ++ [104, 101, 108, 108, 111, 13, 10]) = .err .v1BadPort := by decide
-  rw [h'] at h
-  cases h
+/-- the same by evaluation of the model (independent of the lemmas) -/
+example : readHeader (f5Line.bytes ++ [104, 101, 108, 108, 111, 13, 10]) =
+    .ok (v1Hdr (List.replicate 16 0) (List.replicate 16 0) 1 2, [104, 101, 108, 108, 111, 13, 10]) := by decide
 
 set_option maxRecDepth 100000 in
-/-- the 23-byte case `PROXY TCP6 ::1 :: 1 2\r\n` + `hello\r\n`: one payload byte is swallowed -/
-theorem c08_v1_exact_witness_23 :
-    WFv1 ⟨.tcp6, [58, 58, 49], [58, 58], [49], [50]⟩ ([0,0,0,0,0,0,0,0,0,0,0,0,0,0,0,1]) (List.replicate 16 0) 1 2 ∧
-    readHeader ((V1Line.bytes ⟨.tcp6, [58, 58, 49], [58, 58], [49], [50]⟩) ++ [104, 101, 108, 108, 111, 13, 10])
-      = .err .v1BadPort := by
-  refine ⟨⟨by decide, by decide, by decide, by decide, by decide, ?_⟩, by decide⟩
-  intro h; cases h
+/-- the 23-byte case `PROXY TCP6 ::1 :: 1 2\r\n` + `hello\r\n` (goes through the byte-wise scan) -/
+example : readHeader ((V1Line.bytes ⟨.tcp6, [58, 58, 49], [58, 58], [49], [50]⟩) ++ [104, 101, 108, 108, 111, 13, 10]) =
+    .ok (v1Hdr [0,0,0,0,0,0,0,0,0,0,0,0,0,0,0,1] (List.replicate 16 0) 1 2, [104, 101, 108, 108, 111, 13, 10]) :=
+  c08_v1_exact _ _ _ _ _ _ ⟨by decide, by decide, by decide, by decide, by decide, fun h => by cases h⟩
 
 set_option maxRecDepth 100000 in
-/-- non-vacuity of `c08_v1_exact_partial`: `PROXY TCP6 ::1 ::1 2 3\r\n` is 24 bytes -/
+/-- `PROXY TCP6 ::1 ::1 2 3\r\n` (24 bytes) -/
 example : readHeader ((V1Line.bytes ⟨.tcp6, [58, 58, 49], [58, 58, 49], [50], [51]⟩) ++ [1, 2, 3]) =
     .ok (v1Hdr [0,0,0,0,0,0,0,0,0,0,0,0,0,0,0,1] [0,0,0,0,0,0,0,0,0,0,0,0,0,0,0,1] 2 3, [1, 2, 3]) :=
-  c08_v1_exact_partial _ _ _ _ _ _ ⟨by decide, by decide, by decide, by decide, by decide, fun h => by cases h⟩
-    (fun _ => by decide)
+  c08_v1_exact _ _ _ _ _ _ ⟨by decide, by decide, by decide, by decide, by decide, fun h => by cases h⟩
 
 /-! The theorems above are stated over the abstract predicate `WFv1` ("`net.ParseIP`/`strconv.Atoi`
     accept the fields"): the textual IP grammar does not appear.  The two theorems below discharge
@@ -139,7 +110,7 @@ theorem c08_v1_tcp4_family (a b c d e f g h sp dp : Nat)
                  (v4InV6Prefix ++ [UInt8.ofNat e, UInt8.ofNat f, UInt8.ofNat g, UInt8.ofNat h]) sp dp, p) := by
   obtain ⟨p1, v1⟩ := parseIP_dottedQuad ha hb hc hd
   obtain ⟨p2, v2⟩ := parseIP_dottedQuad he hf hg hh
-  apply c08_v1_tcp4_exact _ _ _ _ _ _ _ rfl
+  apply c08_v1_exact
   refine ⟨p1, p2, atoi_dec16 (by omega), atoi_dec16 (by omega), ?_, fun _ => ⟨v1, v2⟩⟩
   have := dottedQuad_length a b c d
   have := dottedQuad_length e f g h
@@ -149,7 +120,7 @@ theorem c08_v1_tcp4_family (a b c d e f g h sp dp : Nat)
   omega
 
 /-- every `PROXY TCP6 <full form> <full form> sp dp\r\n` (8 groups of 4 lower-case hex digits each),
-    any payload; such a line is 96–104 bytes long, so F5 does not bite -/
+    any payload (such a line is 96–104 bytes long) -/
 theorem c08_v1_tcp6_family (gs hs : List Nat) (sp dp : Nat)
     (hg8 : gs.length = 8) (hh8 : hs.length = 8) (hg : ∀ x ∈ gs, x < 65536) (hh : ∀ x ∈ hs, x < 65536)
     (hsp : sp < 65536) (hdp : dp < 65536) (p : Bytes) :
@@ -165,9 +136,8 @@ theorem c08_v1_tcp6_family (gs hs : List Nat) (sp dp : Nat)
       94 + (dec16 sp).length + (dec16 dp).length := by
     simp [V1Line.bytes, body_length, V1Line.tail, crlf, l1, l2, hg8, hh8]
     omega
-  apply c08_v1_exact_partial
-  · exact ⟨p1, p2, atoi_dec16 (by omega), atoi_dec16 (by omega), by rw [hl]; omega, fun h => by cases h⟩
-  · intro _; rw [hl]; omega
+  apply c08_v1_exact
+  exact ⟨p1, p2, atoi_dec16 (by omega), atoi_dec16 (by omega), by rw [hl]; omega, fun h => by cases h⟩
 
 set_option maxRecDepth 100000 in
 /-- `PROXY TCP4 1.1.1.1 255.0.10.200 0 65535\r\n` -/
@@ -219,36 +189,89 @@ example : readHeader (v2Head 0x21 0x11 0 12 ++ [1, 2, 3, 4, 5, 6, 7, 8, 0, 80, 1
 
 /-! ### (e) no accepted connection reports a missing address -/
 
-/-- Full-strength statement.  **False of the unchanged code (F4).** -/
-def c08_addr_total_full_statement : Prop :=
-  ∀ (bs rest : Bytes) (h : Header), readHeader bs = .ok (h, rest) →
-    remoteSel (.ok h) ≠ .missing ∧ localSel (.ok h) ≠ .missing
+/-- For every input: when the header is accepted, neither `RemoteAddr()` nor `LocalAddr()` is a nil
+    `net.Addr`; and in every history of calls on the connection (accepted or not) no call is
+    answered with a nil address.  (`AddrSel.missing` exists only for observations of an
+    implementation; the model cannot produce it.) -/
+theorem c08_addr_total (bs : Bytes) :
+    (∀ (rest : Bytes) (h : Header), readHeader bs = .ok (h, rest) →
+      remoteSel (.ok h) ≠ .missing ∧ localSel (.ok h) ≠ .missing) ∧
+    (∀ ops : List Op, ∀ o ∈ (Conn.run { wire := bs } ops).2, o ≠ .addr .missing) := by
+  refine ⟨fun _ h _ => sel_ne_missing (.ok h), fun ops => ?_⟩
+  cases ops with
+  | nil => intro o ho; cases ho
+  | cons op ops =>
+    have hrun : Conn.run { wire := bs } (op :: ops) = Conn.run ({ wire := bs } : Conn).ensure (op :: ops) := by
+      unfold Conn.run; rw [step_ensure]
+    rw [hrun, ensure_fresh]
+    exact (run_good (hdrOf bs) (op :: ops) (wireAfter bs)).2.2.1.no_missing
 
-/-- …holds outside the class `isV2NilAddr` (v2, command PROXY with an unlisted family byte, or a
-    command nibble other than LOCAL/PROXY). -/
-theorem c08_addr_total_partial (bs rest : Bytes) (h : Header) (hr : readHeader bs = .ok (h, rest))
-    (hcls : isV2NilAddr bs = false) :
-    remoteSel (.ok h) ≠ .missing ∧ localSel (.ok h) ≠ .missing := by
+set_option maxRecDepth 100000 in
+/-- the former F4 witness (signature, `0x21` = v2 PROXY, family `0x00`, length 2, two bytes): still
+    accepted without addresses, and both calls answer with the socket's own address -/
+example : readHeader (v2Head 0x21 0x00 0 2 ++ [1, 2]) =
+      .ok ({ source := none, dest := none, isLocal := false, version := 2, rawTLVs := [1, 2], unknown := [] }, []) ∧
+    (Conn.run { wire := v2Head 0x21 0x00 0 2 ++ [1, 2] } [.remoteAddr, .localAddr]).2 = [.addr .sock, .addr .sock] := by
+  constructor <;> decide
+
+/-! ### (e') a header accepted without addresses reports the socket's own -/
+
+/-- For every input: an accepted header that is marked local (v1 UNKNOWN, v2 LOCAL) or lacks the
+    source or the destination address makes `RemoteAddr()`/`LocalAddr()` the socket's own addresses.
+    (The reader sets both addresses or neither: `readHeaderS_addr`.) -/
+theorem c08_headerless_addresses_use_socket (bs rest : Bytes) (h : Header)
+    (hr : readHeader bs = .ok (h, rest))
+    (hna : h.isLocal = true ∨ h.source = none ∨ h.dest = none) :
+    remoteSel (.ok h) = .sock ∧ localSel (.ok h) = .sock := by
   rw [readHeader_eq] at hr
-  exact (readHeaderS_addr hr hcls).sel
+  exact (readHeaderS_addr hr).headerless hna
+
+/-- …and which v2 headers these are: a complete v2 header (version 2, length ≤ 2048) whose command
+    is not PROXY (LOCAL or an unassigned nibble), or whose command is PROXY with a non-empty
+    remainder and a family byte outside TCP/UDP over IPv4/IPv6 and UNIX (AF_UNSPEC `0x00`–`0x0f`
+    and every other unlisted byte), followed by any payload: accepted, exactly the payload is left,
+    and both addresses are the socket's own. -/
+theorem c08_v2_headerless_exact (b12 fam l1 l2 : UInt8) (body p : Bytes)
+    (hlen : body.length = l1.toNat * 256 + l2.toNat) (hver : b12.toNat / 16 = 2)
+    (h2048 : body.length ≤ 2048)
+    (hcls : b12.toNat % 16 ≠ 1 ∨
+      (body ≠ [] ∧ fam ≠ 0x11 ∧ fam ≠ 0x12 ∧ fam ≠ 0x21 ∧ fam ≠ 0x22 ∧ fam ≠ 0x31 ∧ fam ≠ 0x32)) :
+    readHeader (v2Head b12 fam l1 l2 ++ body ++ p) = .ok (v2Hdr b12 fam body, p) ∧
+    remoteSel (.ok (v2Hdr b12 fam body)) = .sock ∧ localSel (.ok (v2Hdr b12 fam body)) = .sock := by
+  have href : v2Refusal b12 fam body.length = none := by
+    unfold v2Refusal
+    dsimp only
+    rcases hcls with hc | ⟨hb, f1, f2, f3, f4, f5, f6⟩
+    · rw [if_neg (by simpa using hc)]
+    · have hz : body.length ≠ 0 := by
+        intro e; exact hb (List.eq_nil_of_length_eq_zero e)
+      simp [hz, f1, f2, f3, f4, f5, f6]
+  have hread := c08_v2_exact b12 fam l1 l2 body p hlen hver h2048
+  rw [href] at hread
+  refine ⟨hread, ?_⟩
+  apply HdrOK.headerless (v2Hdr_ok _ _ _)
+  unfold v2Hdr
+  dsimp only
+  rcases hcls with hc | ⟨_, f1, f2, f3, f4, _, _⟩
+  · by_cases h0 : (b12.toNat % 16 == 0) = true
+    · simp [h0]
+    · have h1 : (b12.toNat % 16 == 1) = false := by simpa using hc
+      simp [h0, h1]
+  · by_cases h0 : (b12.toNat % 16 == 0) = true
+    · simp [h0]
+    · simp [h0, f1, f2, f3, f4]
 
 set_option maxRecDepth 100000 in
-/-- F4, kernel-checked: signature, `0x21` (v2, PROXY), family `0x00`, length 2, two bytes: accepted,
-    and `RemoteAddr()` is a nil `net.Addr`. -/
-theorem c08_addr_total_witness : ¬ c08_addr_total_full_statement := by
-  intro hfull
-  have hr : readHeader (v2Head 0x21 0x00 0 2 ++ [1, 2]) =
-      .ok ({ source := none, dest := none, isLocal := false, version := 2, rawTLVs := [1, 2], unknown := [] }, []) := by
-    decide
-  exact (hfull _ _ _ hr).1 rfl
+/-- PROXY command, family AF_UNSPEC, three bytes of remainder, payload `G` -/
+example : readHeader (v2Head 0x21 0x00 0 3 ++ [9, 9, 9] ++ [71]) = .ok (v2Hdr 0x21 0x00 [9, 9, 9], [71]) ∧
+    remoteSel (.ok (v2Hdr 0x21 0x00 [9, 9, 9])) = .sock ∧ localSel (.ok (v2Hdr 0x21 0x00 [9, 9, 9])) = .sock :=
+  c08_v2_headerless_exact _ _ _ _ _ _ (by decide) (by decide) (by decide) (Or.inr (by decide))
 
 set_option maxRecDepth 100000 in
-/-- the other half of the class: command nibble 2, no body -/
-theorem c08_addr_total_witness_cmd :
-    readHeader (v2Head 0x22 0x11 0 0) =
-      .ok ({ source := none, dest := none, isLocal := false, version := 2, rawTLVs := [], unknown := [] }, []) ∧
-    remoteSel (.ok { source := none, dest := none, isLocal := false, version := 2, rawTLVs := [], unknown := [] }) = .missing := by
-  exact ⟨by decide, rfl⟩
+/-- command nibble 2, no remainder -/
+example : readHeader (v2Head 0x22 0x11 0 0 ++ [] ++ [71]) = .ok (v2Hdr 0x22 0x11 [], [71]) ∧
+    remoteSel (.ok (v2Hdr 0x22 0x11 [])) = .sock ∧ localSel (.ok (v2Hdr 0x22 0x11 [])) = .sock :=
+  c08_v2_headerless_exact _ _ _ _ _ _ (by decide) (by decide) (by decide) (Or.inl (by decide))
 
 /-- LOCAL (v2) and UNKNOWN (v1) headers, and a failed header read, report the socket's own
     addresses. -/
@@ -320,30 +343,39 @@ theorem c08_conn_once (bs : Bytes) (ops : List Op) :
     | panic => exact absurd hr (c08_no_panic bs)
 
 set_option maxRecDepth 100000 in
-example : (Conn.run { wire := f5Line.bytes } [.remoteAddr, .read 4, .localAddr]).2 =
-    [.addr .sock, .fail .v1Short, .addr .sock] := by decide
+example : (Conn.run { wire := f5Line.bytes ++ [104, 105] } [.remoteAddr, .read 4, .localAddr]).2 =
+    [.addr (.hdr ⟨false, List.replicate 16 0, 1⟩), .data [104, 105], .addr (.hdr ⟨false, List.replicate 16 0, 2⟩)] := by
+  decide
 
 /-! ### the checker applied to the implementation asks for nothing more than the theorems give -/
 
 /-- `holdsObs` (Model; the `holds` verb) is the decidable form of clauses (b)–(f) that the harness
     evaluates on what the *implementation* did, against a protocol-level reading of the input
     (`specV1`/`specV2`: first CRLF, fields split at spaces, the v2 layout) that does not mention
-    `readHeader`.  On every input outside the two recorded classes the model's own behaviour passes
-    every clause: whatever that reading calls well-formed the reader accepts with exactly the
-    advertised addresses and payload, nothing that must fail is accepted, no address is missing, no
-    header byte leaks. -/
-theorem c08_checker_sound (bs : Bytes) (h1 : isV1ShortTcp6 bs = false) (h2 : isV2NilAddr bs = false) :
-    holdsObs bs (obsOf bs) = none :=
-  holdsObs_model bs h1 h2
+    `readHeader`.  On every input the model's own behaviour passes every clause: whatever that
+    reading calls well-formed the reader accepts with exactly the advertised addresses and payload
+    (a PROXY header of family AF_UNSPEC may instead be refused), nothing that must fail is
+    accepted, no address is missing, no header byte leaks. -/
+theorem c08_checker_sound (bs : Bytes) : holdsObs bs (obsOf bs) = none :=
+  holdsObs_model bs
 
 set_option maxRecDepth 100000 in
-/-- …and inside the classes it does not: the checker flags the model's (= the unchanged code's)
-    behaviour on the F5 and F4 witnesses. -/
-theorem c08_checker_flags_witnesses :
-    holdsObs (f5Line.bytes ++ [104, 101, 108, 108, 111, 13, 10]) (obsOf (f5Line.bytes ++ [104, 101, 108, 108, 111, 13, 10]))
-      = some "well-formed-accepted" ∧
-    holdsObs (v2Head 0x21 0x00 0 2 ++ [1, 2]) (obsOf (v2Head 0x21 0x00 0 2 ++ [1, 2])) = some "no-missing-address" := by
+example : holdsObs (f5Line.bytes ++ [104, 101, 108, 108, 111, 13, 10]) (obsOf (f5Line.bytes ++ [104, 101, 108, 108, 111, 13, 10])) = none ∧
+    (obsOf (f5Line.bytes ++ [104, 101, 108, 108, 111, 13, 10])).accepted = true := by
   constructor <;> decide
+
+set_option maxRecDepth 100000 in
+/-- …and the checker is not vacuous: what the code did before the repairs on the F5 and F4
+    witnesses (connection refused after swallowing two payload bytes; accepted with nil addresses)
+    is flagged, as is a reader that would hand on the last header byte. -/
+theorem c08_checker_flags_old_defects :
+    holdsObs (f5Line.bytes ++ [104, 101, 108, 108, 111, 13, 10]) ⟨false, .sock, .sock, []⟩
+      = some "well-formed-accepted" ∧
+    holdsObs (v2Head 0x21 0x00 0 2 ++ [1, 2]) ⟨true, .missing, .missing, []⟩ = some "no-missing-address" ∧
+    holdsObs (v2Head 0x21 0x00 0 2 ++ [1, 2]) ⟨true, .hdr ⟨false, [], 0⟩, .sock, []⟩ = some "addresses-as-advertised" ∧
+    holdsObs (f5Line.bytes ++ [104]) ⟨true, .hdr ⟨false, List.replicate 16 0, 1⟩, .hdr ⟨false, List.replicate 16 0, 2⟩, [10, 104]⟩
+      = some "no-header-byte-leaked" := by
+  refine ⟨?_, ?_, ?_, ?_⟩ <;> decide
 
 end C08
 end FwdVerif
